@@ -165,8 +165,22 @@ def render_arg(a, nm):
 HOLD_HOOK = None  # set by vf.build: records caller-side containers handed to Term constructors
 
 
+TERM_MEMO = None  # when a dict (set by vf.build for one build): the same AST object yields the same Term object
+
+
 def to_term(e, nm=None):
     """AST -> data_algebra Term built through col()/lit() and operators (bypasses the parser)"""
+    if TERM_MEMO is not None and e[0] in ("bin", "m", "neg", "not"):
+        hit = TERM_MEMO.get(id(e))
+        if hit is not None:
+            return hit
+        r = _to_term(e, nm)
+        TERM_MEMO[id(e)] = r
+        return r
+    return _to_term(e, nm)
+
+
+def _to_term(e, nm=None):
     import data_algebra.expr_rep as er
 
     t = e[0]
